@@ -103,6 +103,9 @@ def run(tier, seed):
     corpus = [[("reset", 10), ("sleep", 100), ("reset", 10), ("recv", 0), ("sleep", 100), ("recv", 0), ("stop", 0)],
               [("reset", 10), ("sleep", 100), ("recv", 0), ("reset", 12), ("reset", 9), ("stop", 0), ("recv", 0)],
               [("reset", 10), ("stop", 0), ("sleep", 100), ("recv", 0), ("reset", 8), ("sleep", 100), ("reset", 8), ("sleep", 100), ("recv", 0), ("recv", 0)],
+              # one Timer: an expiry that was read, then an expiry left unread, then Reset: the unread one must be drained
+              [("reset", 10), ("sleep", 100), ("recv", 0), ("reset", 10), ("sleep", 100), ("reset", 3000), ("recv", 0), ("sleep", 100), ("recv", 0), ("stop", 0)],
+              [("reset", 9), ("sleep", 100), ("recv", 0), ("reset", 9), ("sleep", 100), ("recv", 0), ("reset", 9), ("sleep", 100), ("reset", 3000), ("recv", 0), ("stop", 0)],
               # a Timer whose expiry was read is stopped and recycled through NewTimer: nothing of its past may show
               [("reset", 10), ("sleep", 100), ("recv", 0), ("stop", 0), ("reset", 10), ("sleep", 100), ("reset", 3000), ("recv", 0), ("sleep", 100), ("recv", 0), ("stop", 0)],
               [("reset", 9), ("sleep", 100), ("recv", 0), ("stop", 0), ("reset", 9), ("sleep", 100), ("recv", 0), ("stop", 0), ("reset", 9), ("sleep", 100), ("reset", 3000), ("recv", 0), ("stop", 0)]]
